@@ -338,6 +338,25 @@ def cmp_solution(cx, a, b, what):
                     cx.viol("step_field_differs", "step_data_differs", {"what": what, "step": s, "field": f.name})
             if not np.array_equal(np.asarray(a.current_density.magnitude), np.asarray(b.current_density.magnitude)):
                 cx.viol("current_density_differs", "step_data_differs", {"what": what, "step": s})
+            # ground truth for "step s of this Solution": the group data/<s> of its file, read with h5py (an object that was
+            # MOVED to step s shows what a fresh load of step s shows)
+            for sol_, tag_ in ((a, "original"), (b, "loaded")):
+                path_ = getattr(sol_, "path", None)
+                if not path_ or not os.path.exists(path_):
+                    continue
+                import h5py
+
+                with h5py.File(path_, "r") as f_:
+                    if "data" not in f_ or str(s) not in f_["data"]:
+                        continue
+                    grp_ = f_["data"][str(s)]
+                    cx.cnt("step_vs_file_checks")
+                    for f in dataclasses.fields(sol_.tdgl_data):
+                        if f.name in grp_:
+                            x = getattr(sol_.tdgl_data, f.name)
+                            y = np.array(grp_[f.name])
+                            if not isinstance(x, np.ndarray) or x.shape != y.shape or not np.array_equal(x, y, equal_nan=True):
+                                cx.viol("step_array_ne_file", "step_data_differs", {"what": what, "which": tag_, "step": s, "field": f.name, "reached_by": "solve_step setter"})
         a.solve_step = -1
         b.solve_step = -1
     # dynamics (an accessor that works on the original and raises on the loaded object is a difference in behaviour)
